@@ -22,6 +22,22 @@ let () = run_protocol [
   "len_scale_vec", (function [d; l; s] -> VV (len_scale_vec o (gn d) (gf l) (gv s)) | _ -> failwith "arity");
   "axis_arg", (function [s; r; ax] -> VF (axis_arg o (gv s) (gf r) (gn ax)) | _ -> failwith "arity");
   "set_model_angles", (function [d; a; ll; tt] -> VV (set_model_angles o (gn d) (gv a) (gb ll) (gb tt)) | _ -> failwith "arity");
+  (* geometry state machine: state = dim len anis angles temporal ; op code 0 len / 1 anis / 2 angles / 3 dim *)
+  "geo_step", (function [d; l; an; ag; tt; code; v; nd] ->
+      let s = { g_dim = gn d; g_len = gf l; g_anis = gv an; g_angles = gv ag; g_temporal = gb tt } in
+      let op = (match int_of_nat (gn code) with 0 -> OpLen (gv v) | 1 -> OpAnis (gv v) | 2 -> OpAngles (gv v) | _ -> OpDim (gn nd)) in
+      let s' = geo_step o s op in
+      VT [VN (int_of_nat s'.g_dim); VF s'.g_len; VV s'.g_anis; VV s'.g_angles] | _ -> failwith "arity");
+  "geo_init", (function [d; l; an; ag; tt] ->
+      (match geo_init o (gn d) (gv l) (gv an) (gv ag) (gb tt) with
+       | None -> VNone
+       | Some s' -> VT [VN (int_of_nat s'.g_dim); VF s'.g_len; VV s'.g_anis; VV s'.g_angles]) | _ -> failwith "arity");
+  "geo_isometrize", (function [d; l; an; ag; tt; p] ->
+      VM (geo_isometrize o { g_dim = gn d; g_len = gf l; g_anis = gv an; g_angles = gv ag; g_temporal = gb tt } (gm p)) | _ -> failwith "arity");
+  "geo_anisometrize", (function [d; l; an; ag; tt; p] ->
+      VM (geo_anisometrize o { g_dim = gn d; g_len = gf l; g_anis = gv an; g_angles = gv ag; g_temporal = gb tt } (gm p)) | _ -> failwith "arity");
+  "geo_iso_rad", (function [d; l; an; ag; tt; p] ->
+      VV (geo_iso_rad o { g_dim = gn d; g_len = gf l; g_anis = gv an; g_angles = gv ag; g_temporal = gb tt } (gm p)) | _ -> failwith "arity");
   "set_len_anis", (function [d; l; s; ll] ->
       (match set_len_anis o (gn d) (gv l) (gv s) (gb ll) with
        | None -> VNone | Some (l0, an) -> VT [VF l0; VV an]) | _ -> failwith "arity");
